@@ -21,7 +21,7 @@
 (***************************************************************************)
 EXTENDS TrieSpec, TLC, Json
 
-CONSTANTS Keys, Vals, Lens, Versions, Damages, Depth
+CONSTANTS Keys, Vals, Lens, LongLens, Versions, Damages, Depth   \* LongLens: rare long lists (generator only)
 
 VARIABLES hist, done
 vars == <<hist, done>>
@@ -114,7 +114,7 @@ PickCase ==
   LET kind == Pick({"root", "ordered"})
       fn == Pick({1, 2, 2})
       ver == IF Pick(1..4) = 1 THEN Pick(Versions) ELSE Pick({0, 1})
-      n == Pick(Lens)
+      n == IF LongLens # {} /\ Pick(1..16) = 1 THEN Pick(LongLens) ELSE Pick(Lens)
       dmg == IF Pick(1..5) = 1 THEN Pick(Damages) ELSE "none"
       list == IF kind = "root" THEN [i \in 1..n |-> <<Pick(Keys), Pick(Vals)>>] ELSE [i \in 1..n |-> Pick(Vals)]
   IN MkCase(kind, fn, ver, list, dmg)
